@@ -672,6 +672,12 @@ type monC14 struct{ base }
 func (m *monC14) Name() string { return "C14" }
 
 func (m *monC14) OnObs(w *World, o *Obs) {
+	if o.Kind == "store.write" && o.Store.Err != "" && o.Store.Phase == "after" {
+		// not an injected fault: the real store refused the write, e.g. because
+		// the record already on disk can no longer be decoded
+		w.Violate("C14", "store-rejects-record:"+shortState(o.Store.State)+":"+firstWords(o.Store.Err, 5), "node %d: the store failed to write/reload the record of swap %.8s in state %s: %s", o.Node, o.Store.SwapID, o.Store.State, o.Store.Err)
+		return
+	}
 	if o.Kind != "store.write" || o.Store.Raw == nil {
 		return
 	}
@@ -720,6 +726,21 @@ func diffSM(a, b *swap.SwapStateMachine) string {
 	for i := 0; i < t.NumField(); i++ {
 		f := t.Field(i)
 		if !f.IsExported() || f.Name == "LastErr" || f.Name == "LastMessage" {
+			continue
+		}
+		if f.Name == "LastErrString" {
+			// the persisted text of the (unserialisable) LastErr: compare the
+			// effective error text of both sides, not the raw field
+			ea, eb := a.Data.LastErrString, b.Data.LastErrString
+			if a.Data.LastErr != nil {
+				ea = a.Data.LastErr.Error()
+			}
+			if b.Data.LastErr != nil {
+				eb = b.Data.LastErr.Error()
+			}
+			if ea != eb {
+				return "Data.LastErr(text)"
+			}
 			continue
 		}
 		x, y := va.Field(i).Interface(), vb.Field(i).Interface()
@@ -993,6 +1014,36 @@ func (m *monC18) Final(w *World) {
 	if w.Sim.Deadlock != nil {
 		sig := deadlockSig(w.Sim.Deadlock)
 		w.Violate("C18", "lock-cycle:"+sig, "deadlock: %s", strings.Join(w.Sim.Deadlock, " ; "))
+		return
+	}
+	// a handler still waiting for a lock long after everything went quiet is blocked forever
+	stuck := func() map[string]string {
+		out := map[string]string{}
+		for _, b := range w.Sim.BlockedTasks() {
+			if strings.Contains(b, "site=lockwait") || strings.Contains(b, "site=rlockwait") {
+				id := b
+				if i := strings.Index(b, " "); i > 0 {
+					id = b[:i]
+				}
+				out[id] = b
+			}
+		}
+		return out
+	}
+	first := stuck()
+	if len(first) == 0 {
+		return
+	}
+	w.Sim.Idle(10 * time.Minute)
+	second := stuck()
+	for id, desc := range second {
+		if _, ok := first[id]; ok {
+			name := id
+			if a, b := strings.Index(desc, "["), strings.Index(desc, "]"); a >= 0 && b > a {
+				name = desc[a+1 : b]
+			}
+			w.Violate("C18", "blocked-forever:"+name, "a handler is blocked on a lock for good (still blocked after 10 more idle minutes): %s", desc)
+		}
 	}
 }
 
